@@ -23,6 +23,37 @@ Proof.
   destruct (u >? 0); reflexivity.
 Qed.
 
+(* calc_explicit_padding: the translated while loop (a local fix over S (Z.to_nat pad_after), None = out of fuel) never
+   runs out of fuel and computes what the hand twin computes *)
+Section ExplicitLoop.
+  Variable s tmb : Z.
+  Fixpoint explicit_loop_opt (fuel : nat) (opa : Z) : option Z :=
+    match fuel with
+    | O => None
+    | S f' => if (opa >? 0) && negb (opa mod s =? tmb mod s) then explicit_loop_opt f' (opa - 1) else Some opa
+    end.
+End ExplicitLoop.
+
+Lemma explicit_loop_opt_eq s tmb : forall fuel opa, (Z.to_nat opa <= fuel)%nat ->
+  explicit_loop_opt s tmb (S fuel) opa = Some (explicit_after fuel opa s tmb).
+Proof.
+  induction fuel as [|fuel IH]; intros opa Hf.
+  - cbn [explicit_loop_opt explicit_after]. destruct (Z.gtb_spec opa 0); [lia|]. reflexivity.
+  - change (explicit_loop_opt s tmb (S (S fuel)) opa) with
+      (if (opa >? 0) && negb (opa mod s =? tmb mod s) then explicit_loop_opt s tmb (S fuel) (opa - 1) else Some opa).
+    cbn [explicit_after]. rewrite Z.gtb_ltb.
+    destruct ((0 <? opa) && negb (opa mod s =? tmb mod s)) eqn:E; [|reflexivity].
+    apply IH. apply andb_true_iff in E. destruct E as [E _]. apply Z.ltb_lt in E. lia.
+Qed.
+
+Lemma gen_calc_explicit_padding_eq i s f pb pa :
+  GenStripe.calc_explicit_padding i s f pb pa = Some (Stripe.calc_explicit_padding i s f pb pa).
+Proof.
+  change (GenStripe.calc_explicit_padding i s f pb pa) with
+    (match explicit_loop_opt s (f - i - pb) (S (Z.to_nat pa)) pa with Some x => Some (pb, x) | None => None end).
+  rewrite explicit_loop_opt_eq by lia. reflexivity.
+Qed.
+
 (* ---------- small arithmetic ---------- *)
 Lemma needed_total_padding_ge i s f : 0 < s -> f - s <= needed_total_padding i s f /\ 0 <= needed_total_padding i s f.
 Proof.
